@@ -22,6 +22,7 @@ def contracts():
     # prior, built by the real constructors, is linear in the base scale and in the calibrated scale (shared with C09)
     from contracts import exp_priors, gaussians, priors
 
-    out += [priors.transition_contract(L) for L in gaussians.LAYOUTS]
+    out += [priors.transition_contract(L, explicit_std=es) for L in gaussians.LAYOUTS for es in (False, True)]
     out += [exp_priors.transition_contract(kind, diffuse=df) for kind in ("general", "ou", "matern") for df in (0, 1)]
+    out += [exp_priors.transition_contract(kind, explicit_std=True) for kind in ("general", "ou", "matern")]
     return out
